@@ -39,7 +39,15 @@ def horner(cs, x):
 
 
 def make_function(spec, dim):
-    """the wrapped function as a plain Python callable of `dim` floats"""
+    """the wrapped function as a plain Python callable of `dim` floats; spec["origin"] moves it: f(p - origin)"""
+    g = make_function0(spec, dim)
+    org = spec.get("origin")
+    if not org:
+        return g
+    return lambda *p: g(*[pi - oi for pi, oi in zip(p, org)])
+
+
+def make_function0(spec, dim):
     kind = spec["kind"]
     if kind == "poly":
         cs = spec["coeffs"]
@@ -53,7 +61,7 @@ def make_function(spec, dim):
         return lambda *p: A * math.sin(sum(ki * pi for ki, pi in zip(k, p)) + ph) + C
     if kind == "expo":
         A, k, C = spec["A"], spec["k"], spec["C"]
-        return lambda *p: A * math.exp(sum(ki * pi for ki, pi in zip(k, p))) + C
+        return lambda *p: A * math.exp(max(-60.0, min(60.0, sum(ki * pi for ki, pi in zip(k, p))))) + C   # exponent clamped far outside
     raise ValueError(kind)
 
 
